@@ -86,7 +86,7 @@ def run_sup(case):
     nrm = math.hypot(*o["pol"])
     want = np.abs(pv[:, 0] + o["pol"][0] / nrm) ** 2 + np.abs(pv[:, 1] + o["pol"][1] / nrm) ** 2
     eh = np.abs(H - want).max() / max(1.0, np.abs(want).max())
-    if eh > 1e-11 * TOLX:
+    if not (eh <= 1e-11 * TOLX):
         return Outcome(failure("superposition_hologram", "hologram of the collection differs from |sum E + e|^2 by %.3g" % eh, theory=tname), True, labels)
     distinct = len({round(m["x"], 6) for m in case["mem"]}) >= 2
     return Outcome(None, kk >= 2 and distinct, labels, metrics={"superposition_" + tname: err})
@@ -164,7 +164,8 @@ def strat_chan(tier):
         "shape": st.tuples(st.integers(1, 5), st.integers(1, 5)).map(list),
         "spacing": gen.rounded(0.05, 0.5, 3),
         "wl_form": st.sampled_from(["dict", "dataarray", "scalar"]),
-        "pol_form": st.sampled_from(["dict", "dataarray", "scalar"]),
+        # dataarray_raw: a labelled (illumination x vector) array assembled by hand from the raw, not unit-length, components
+        "pol_form": st.sampled_from(["dict", "dataarray", "dataarray_raw", "scalar"]),
         "n_form": st.sampled_from(["dict", "dataarray", "scalar"]),
         "r_form": st.sampled_from(["dict", "scalar", "scalar"]),
         "alpha_form": st.sampled_from(["dict", "scalar"]),
@@ -206,6 +207,9 @@ def run_chan(case):
             return per_label[labs[0]]
         if form == "dict":
             return {l: per_label[l] for l in order}
+        if vector and form == "dataarray_raw":
+            return xr.DataArray(np.array([list(per_label[l])[:2] + [0.0] for l in order], dtype=float), dims=["illumination", "vector"],
+                                coords={"illumination": order, "vector": ["x", "y", "z"]})
         if vector:
             return xr.concat([to_vector(per_label[l]) for l in order], xr.DataArray(order, dims="illumination", name="illumination"))
         return xr.DataArray([per_label[l] for l in order], dims="illumination", coords={"illumination": order})
